@@ -122,6 +122,20 @@ func newSession(
 	mergedAlphaConfiguration := MergeConfigurations(configuration, configurationAlpha)
 	mergedBetaConfiguration := MergeConfigurations(configuration, configurationBeta)
 
+	// Verify that the merged endpoint configurations are valid. Endpoint-
+	// specific configurations are validated without knowledge of the session
+	// configuration, so certain combinations (e.g. an endpoint-specific default
+	// file mode with executability bits under a portable permissions mode) can
+	// only be detected once the configurations have been merged. Endpoints
+	// perform this same validation of their effective configuration, so we want
+	// to reject such combinations now rather than creating a session whose
+	// endpoints can't be initialized.
+	if err := mergedAlphaConfiguration.EnsureValid(false); err != nil {
+		return nil, fmt.Errorf("invalid effective alpha configuration: %w", err)
+	} else if err = mergedBetaConfiguration.EnsureValid(false); err != nil {
+		return nil, fmt.Errorf("invalid effective beta configuration: %w", err)
+	}
+
 	// If the session isn't being created paused, then try to connect to the
 	// endpoints. Before doing so, set up a deferred handler that will shut down
 	// any endpoints that aren't handed off to the run loop due to errors.
